@@ -1,7 +1,420 @@
 package main
 
-// Replay of solver counterexamples against the real code (go test -overlay).
+// Replay of solver counterexamples against the real code.
+//
+// For a failed obligation with a model, the model is projected onto the
+// function's parameters (integers, booleans, strings, byte slices, *big.Int,
+// structs of those), a Go test that calls the real function with these inputs
+// is generated and run through `go test -overlay` (nothing is written to
+// /repo).  A safety obligation counts as reproduced when the call panics.
+
+import (
+	"bytes"
+	"context"
+	"encoding/json"
+	"fmt"
+	"go/types"
+	"math/big"
+	"os"
+	"os/exec"
+	"path/filepath"
+	"regexp"
+	"strings"
+	"time"
+
+	"golang.org/x/tools/go/ssa"
+)
+
+type replayer struct {
+	script  string
+	queries []string
+	answers map[string]string
+	unsupp  string
+}
+
+func (rp *replayer) ask(q string) {
+	rp.queries = append(rp.queries, q)
+}
+
+var valueRe = regexp.MustCompile(`#x[0-9a-fA-F]+|#b[01]+|\(- \d+\)|\d+|true|false`)
+
+// runQueries runs z3-new on the script plus (get-value ..) and fills answers.
+func (rp *replayer) runQueries() bool {
+	if len(rp.queries) == 0 {
+		return true
+	}
+	var sb strings.Builder
+	sb.WriteString(strings.Replace(rp.script, "(get-model)\n", "", 1))
+	for _, q := range rp.queries {
+		fmt.Fprintf(&sb, "(get-value (%s))\n", q)
+	}
+	ctx, cancel := context.WithTimeout(context.Background(), 40*time.Second)
+	defer cancel()
+	cmd := exec.CommandContext(ctx, "z3-new", "-in", "-smt2", "-T:30")
+	cmd.Stdin = strings.NewReader(sb.String())
+	var out bytes.Buffer
+	cmd.Stdout = &out
+	cmd.Stderr = &out
+	_ = cmd.Run()
+	lines := strings.Split(out.String(), "\n")
+	i := 0
+	for i < len(lines) && strings.TrimSpace(lines[i]) != "sat" {
+		i++
+	}
+	if i >= len(lines) {
+		return false
+	}
+	rest := strings.Join(lines[i+1:], "\n")
+	// answers come in order, one s-expression per query
+	pos := 0
+	for _, q := range rp.queries {
+		// find next top-level "((" ... "))"
+		start := strings.Index(rest[pos:], "((")
+		if start < 0 {
+			return false
+		}
+		start += pos
+		depth := 0
+		end := -1
+		for j := start; j < len(rest); j++ {
+			if rest[j] == '(' {
+				depth++
+			} else if rest[j] == ')' {
+				depth--
+				if depth == 0 {
+					end = j
+					break
+				}
+			}
+		}
+		if end < 0 {
+			return false
+		}
+		ans := rest[start : end+1]
+		// value = last token group after the echoed term
+		vals := valueRe.FindAllString(ans, -1)
+		if len(vals) == 0 {
+			rp.answers[q] = ans
+		} else {
+			rp.answers[q] = vals[len(vals)-1]
+		}
+		pos = end + 1
+	}
+	rp.queries = nil
+	return true
+}
+
+func parseNum(s string) (*big.Int, bool) {
+	n := new(big.Int)
+	switch {
+	case strings.HasPrefix(s, "#x"):
+		_, ok := n.SetString(s[2:], 16)
+		return n, ok
+	case strings.HasPrefix(s, "#b"):
+		_, ok := n.SetString(s[2:], 2)
+		return n, ok
+	case strings.HasPrefix(s, "(- "):
+		_, ok := n.SetString(strings.TrimSuffix(s[3:], ")"), 10)
+		return n.Neg(n), ok
+	}
+	_, ok := n.SetString(s, 10)
+	return n, ok
+}
+
+func typeLit(T types.Type) string {
+	return types.TypeString(T, func(p *types.Package) string {
+		if p.Name() == "otr3" || p.Name() == "sexp" {
+			return ""
+		}
+		return p.Name()
+	})
+}
+
+// plan collects the queries needed to render a value; render produces the Go literal.
+type valuePlan struct {
+	term string
+	T    types.Type
+}
+
+func (rp *replayer) plan1(term string, T types.Type) {
+	switch u := T.Underlying().(type) {
+	case *types.Basic:
+		switch {
+		case u.Info()&types.IsInteger != 0, u.Info()&types.IsBoolean != 0:
+			rp.ask(term)
+		case u.Info()&types.IsString != 0:
+			rp.ask(fmt.Sprintf("(str_len %s)", term))
+		default:
+			rp.unsupp = "parameter of type " + T.String()
+		}
+	case *types.Slice:
+		if eb, ok := u.Elem().Underlying().(*types.Basic); !ok || eb.Kind() != types.Uint8 {
+			rp.unsupp = "slice parameter of type " + T.String()
+			return
+		}
+		rp.ask(fmt.Sprintf("(= (sbase %s) null)", term))
+		rp.ask(fmt.Sprintf("(slen %s)", term))
+		rp.ask(fmt.Sprintf("(scap %s)", term))
+	case *types.Struct:
+		si := structInfo(T)
+		for _, f := range si.Fields {
+			rp.plan1(fmt.Sprintf("(%s %s)", quoteSym(f.Acc), term), f.T)
+		}
+	case *types.Array:
+		if eb, ok := u.Elem().Underlying().(*types.Basic); !ok || eb.Kind() != types.Uint8 || u.Len() > 64 {
+			rp.unsupp = "array parameter of type " + T.String()
+			return
+		}
+		for i := int64(0); i < u.Len(); i++ {
+			rp.ask(fmt.Sprintf("(select %s (_ bv%d 64))", term, i))
+		}
+	case *types.Pointer:
+		if n, ok := u.Elem().(*types.Named); ok && n.Obj().Name() == "Int" && n.Obj().Pkg() != nil && n.Obj().Pkg().Path() == "math/big" {
+			rp.ask(fmt.Sprintf("(= %s null)", term))
+			if _, ok := memArrays["G$val"]; ok {
+				rp.ask(fmt.Sprintf("(select |G$val@pre| %s)", term))
+			}
+			return
+		}
+		rp.unsupp = "pointer parameter of type " + T.String()
+	default:
+		rp.unsupp = "parameter of type " + T.String()
+	}
+}
+
+const maxReplayBytes = 4096
+
+func (rp *replayer) plan2(term string, T types.Type) {
+	switch u := T.Underlying().(type) {
+	case *types.Basic:
+		if u.Info()&types.IsString != 0 {
+			n, ok := parseNum(rp.answers[fmt.Sprintf("(str_len %s)", term)])
+			if !ok || n.Cmp(big.NewInt(maxReplayBytes)) > 0 {
+				rp.unsupp = "string too long in model"
+				return
+			}
+			for i := int64(0); i < n.Int64(); i++ {
+				rp.ask(fmt.Sprintf("(str_at %s (_ bv%d 64))", term, i))
+			}
+		}
+	case *types.Slice:
+		if rp.answers[fmt.Sprintf("(= (sbase %s) null)", term)] == "true" {
+			return
+		}
+		n, ok := parseNum(rp.answers[fmt.Sprintf("(slen %s)", term)])
+		if !ok || n.Cmp(big.NewInt(maxReplayBytes)) > 0 {
+			rp.unsupp = fmt.Sprintf("slice of length %s in model: too large to materialise", rp.answers[fmt.Sprintf("(slen %s)", term)])
+			return
+		}
+		for i := int64(0); i < n.Int64(); i++ {
+			rp.ask(fmt.Sprintf("(select (select |A$uint8@pre| (sbase %s)) (bvadd (soff %s) (_ bv%d 64)))", term, term, i))
+		}
+	case *types.Struct:
+		si := structInfo(T)
+		for _, f := range si.Fields {
+			rp.plan2(fmt.Sprintf("(%s %s)", quoteSym(f.Acc), term), f.T)
+		}
+	}
+}
+
+func (rp *replayer) render(term string, T types.Type) string {
+	switch u := T.Underlying().(type) {
+	case *types.Basic:
+		switch {
+		case u.Info()&types.IsBoolean != 0:
+			return fmt.Sprintf("%s(%s)", typeLit(T), rp.answers[term])
+		case u.Info()&types.IsInteger != 0:
+			n, _ := parseNum(rp.answers[term])
+			w, sg := intSize(u)
+			if sg && n.Bit(w-1) == 1 {
+				n.Sub(n, new(big.Int).Lsh(big.NewInt(1), uint(w)))
+			}
+			return fmt.Sprintf("%s(%s)", typeLit(T), n.String())
+		case u.Info()&types.IsString != 0:
+			n, _ := parseNum(rp.answers[fmt.Sprintf("(str_len %s)", term)])
+			var bs []byte
+			for i := int64(0); i < n.Int64(); i++ {
+				b, _ := parseNum(rp.answers[fmt.Sprintf("(str_at %s (_ bv%d 64))", term, i)])
+				bs = append(bs, byte(b.Int64()))
+			}
+			return fmt.Sprintf("%s(%q)", typeLit(T), string(bs))
+		}
+	case *types.Slice:
+		if rp.answers[fmt.Sprintf("(= (sbase %s) null)", term)] == "true" {
+			return fmt.Sprintf("%s(nil)", typeLit(T))
+		}
+		n, _ := parseNum(rp.answers[fmt.Sprintf("(slen %s)", term)])
+		cp, _ := parseNum(rp.answers[fmt.Sprintf("(scap %s)", term)])
+		var parts []string
+		for i := int64(0); i < n.Int64(); i++ {
+			b, _ := parseNum(rp.answers[fmt.Sprintf("(select (select |A$uint8@pre| (sbase %s)) (bvadd (soff %s) (_ bv%d 64)))", term, term, i)])
+			parts = append(parts, fmt.Sprintf("0x%02x", b.Int64()))
+		}
+		lit := fmt.Sprintf("[]byte{%s}", strings.Join(parts, ", "))
+		if cp.Cmp(n) > 0 && cp.Cmp(big.NewInt(maxReplayBytes)) <= 0 {
+			lit = fmt.Sprintf("append(make([]byte, 0, %d), %s...)", cp.Int64(), lit)
+		}
+		return fmt.Sprintf("%s(%s)", typeLit(T), lit)
+	case *types.Struct:
+		si := structInfo(T)
+		var parts []string
+		for _, f := range si.Fields {
+			parts = append(parts, fmt.Sprintf("%s: %s", f.Name, rp.render(fmt.Sprintf("(%s %s)", quoteSym(f.Acc), term), f.T)))
+		}
+		return fmt.Sprintf("%s{%s}", typeLit(T), strings.Join(parts, ", "))
+	case *types.Array:
+		var parts []string
+		for i := int64(0); i < u.Len(); i++ {
+			b, _ := parseNum(rp.answers[fmt.Sprintf("(select %s (_ bv%d 64))", term, i)])
+			parts = append(parts, fmt.Sprintf("0x%02x", b.Int64()))
+		}
+		return fmt.Sprintf("%s{%s}", typeLit(T), strings.Join(parts, ", "))
+	case *types.Pointer:
+		if rp.answers[fmt.Sprintf("(= %s null)", term)] == "true" {
+			return "(*big.Int)(nil)"
+		}
+		v := "0"
+		if a, ok := rp.answers[fmt.Sprintf("(select |G$val@pre| %s)", term)]; ok {
+			if n, ok := parseNum(a); ok {
+				v = n.String()
+			}
+		}
+		return fmt.Sprintf("zzBig(%q)", v)
+	}
+	return "nil"
+}
+
+var safetyKinds = map[string]bool{"index": true, "slice": true, "nil": true, "nil.iface": true, "nil.func": true, "divzero": true, "typeassert": true, "makeslice": true, "panic": true, "shift.negative": true}
 
 func tryReplay(r *FuncResult, o *Obl) string {
-	return "\nreplay: not available for this obligation kind (no-failing-input-found)\n"
+	if o.Status != "sat" {
+		return "\nreplay: the solvers returned no model for this obligation (status " + o.Status + "): no-failing-input-found\n"
+	}
+	fn := r.Fn
+	if fn == nil {
+		return "\nreplay: lemma obligation, nothing to execute\n"
+	}
+	// receiver handling
+	var callPrefix string
+	params := fn.Params
+	if recv := fn.Signature.Recv(); recv != nil {
+		if !isEmptyStruct(recv.Type()) {
+			return "\nreplay: not attempted (method with a non-trivial receiver of type " + recv.Type().String() + "); no-failing-input-found\n"
+		}
+		callPrefix = typeLit(recv.Type()) + "{}."
+		params = params[1:]
+	}
+	termMu.Lock()
+	asserts := prefixAssumptions(r, o)
+	asserts = append(asserts, And(o.Guard, Not(o.Goal)))
+	script := buildScript(asserts, false)
+	termMu.Unlock()
+	rp := &replayer{script: script, answers: map[string]string{}}
+	for _, p := range params {
+		rp.plan1(quoteSym("p$"+sanitize(p.Name())), p.Type())
+	}
+	if rp.unsupp != "" {
+		return "\nreplay: not attempted (" + rp.unsupp + "); no-failing-input-found\n"
+	}
+	if !rp.runQueries() {
+		return "\nreplay: the model could not be read back; no-failing-input-found\n"
+	}
+	for _, p := range params {
+		rp.plan2(quoteSym("p$"+sanitize(p.Name())), p.Type())
+	}
+	if rp.unsupp != "" {
+		return "\nreplay: not attempted (" + rp.unsupp + "); no-failing-input-found\n"
+	}
+	if !rp.runQueries() {
+		return "\nreplay: the model could not be read back; no-failing-input-found\n"
+	}
+	var args []string
+	for _, p := range params {
+		args = append(args, rp.render(quoteSym("p$"+sanitize(p.Name())), p.Type()))
+	}
+	pkgName := fn.Pkg.Pkg.Name()
+	call := fmt.Sprintf("%s%s(%s)", callPrefix, fn.Name(), strings.Join(args, ", "))
+	if fn.Signature.Variadic() && len(args) > 0 {
+		call = fmt.Sprintf("%s%s(%s...)", callPrefix, fn.Name(), strings.Join(args, ", "))
+	}
+	nres := fn.Signature.Results().Len()
+	lhs := ""
+	if nres > 0 {
+		var us []string
+		for i := 0; i < nres; i++ {
+			us = append(us, fmt.Sprintf("r%d", i))
+		}
+		lhs = strings.Join(us, ", ") + " := "
+	}
+	var printRes strings.Builder
+	for i := 0; i < nres; i++ {
+		fmt.Fprintf(&printRes, "\tfmt.Printf(\"ZZREPLAY result%d = %%#v\\n\", r%d)\n", i, i)
+	}
+	src := fmt.Sprintf(`package %s
+
+import (
+	"fmt"
+	"math/big"
+	"testing"
+)
+
+func zzBig(s string) *big.Int { n, _ := new(big.Int).SetString(s, 10); return n }
+
+var _ = zzBig
+
+// Replay of the solver's counterexample for obligation
+//   %s
+func TestZZReplay(t *testing.T) {
+	defer func() {
+		if r := recover(); r != nil {
+			fmt.Printf("ZZREPLAY panic: %%v\n", r)
+		}
+	}()
+	%s%s
+%s	fmt.Println("ZZREPLAY returned")
 }
+`, pkgName, o.Name, lhs, call, printRes.String())
+	dir := filepath.Join("/verif/replay", "src")
+	os.MkdirAll(dir, 0o755)
+	testFile := filepath.Join(dir, sanitize(o.Name)+"_test.go")
+	os.WriteFile(testFile, []byte(src), 0o644)
+	pkgDir := repoDir
+	if pkgName == "sexp" {
+		pkgDir = filepath.Join(repoDir, "sexp")
+	}
+	ov := map[string]map[string]string{"Replace": {filepath.Join(pkgDir, "zz_verif_replay_test.go"): testFile}}
+	ob, _ := json.Marshal(ov)
+	ovf := filepath.Join(dir, sanitize(o.Name)+".overlay.json")
+	os.WriteFile(ovf, ob, 0o644)
+	cmd := exec.Command("bash", "-c", fmt.Sprintf("ulimit -v 8000000; cd %s && go test -overlay %s -vet=off -count=1 -v -run '^TestZZReplay$' -timeout 60s .", pkgDir, ovf))
+	cmd.Env = append(os.Environ(), "GOFLAGS=-mod=mod", "GOPROXY=off", "GOSUMDB=off", "GOTOOLCHAIN=local")
+	out, _ := cmd.CombinedOutput()
+	outS := string(out)
+	var sb strings.Builder
+	fmt.Fprintf(&sb, "\nreplay test: %s\nreplay call: %s\n", testFile, call)
+	panicked := strings.Contains(outS, "ZZREPLAY panic:") || strings.Contains(outS, "panic:")
+	returned := strings.Contains(outS, "ZZREPLAY returned")
+	for _, ln := range strings.Split(outS, "\n") {
+		if strings.Contains(ln, "ZZREPLAY") || strings.HasPrefix(ln, "panic:") || strings.Contains(ln, "FAIL") {
+			sb.WriteString("  " + ln + "\n")
+		}
+	}
+	kind := o.Kind
+	if i := strings.Index(kind, ":"); i >= 0 {
+		kind = kind[:i]
+	}
+	switch {
+	case safetyKinds[kind] && panicked:
+		o.Replayed = true
+		sb.WriteString("replay: REPRODUCED - the real code panics on the counterexample\n")
+	case safetyKinds[kind] && returned:
+		sb.WriteString("replay: not reproduced (the call returned normally); no-failing-input-found\n")
+	case !safetyKinds[kind]:
+		sb.WriteString("replay: the call was executed on the counterexample (results above); the violated clause is not evaluated dynamically: no-failing-input-found\n")
+	default:
+		sb.WriteString("replay: inconclusive\n" + trunc(outS, 1500) + "\n")
+	}
+	return sb.String()
+}
+
+var _ = ssa.NewProgram
